@@ -153,6 +153,7 @@ func ruleMapIterCond(c *Ctx, r *R) {
 		nSig++
 		covers := true
 		why := ""
+		preReads, preOK := map[ssa.Value]bool{}, map[ssa.Value]bool{}
 		for _, gd := range guardsOf(b) {
 			cf, ok := gd.asCmp()
 			if !ok {
@@ -169,6 +170,19 @@ func ruleMapIterCond(c *Ctx, r *R) {
 			// must be implied by inFlight == bufferSize-1
 			bs := strings.HasSuffix(ys, ".bufferSize")
 			bsm1 := strings.HasSuffix(ys, ".bufferSize-1)")
+			// a test on the value read BEFORE this call's decrement (wasFull := inFlight == bufferSize; inFlight--; if wasFull)
+			// speaks about new+1: the same conditions, shifted by one
+			if inFlightReadBeforeDec(cf.x) || inFlightReadBeforeDec(cf.y) {
+				preReads[gd.cond] = true
+				switch {
+				case cf.op == token.EQL && bs, cf.op == token.LEQ && bs, cf.op == token.GEQ && bs:
+					preOK[gd.cond] = true
+					continue
+				}
+				covers = false
+				why = "Signal is conditional on the count before the decrement being " + cf.op.String() + " " + ys + ", which does not hold when inFlight drops from bufferSize to bufferSize-1: the dispatcher waiting on inFlight >= bufferSize is never woken"
+				continue
+			}
 			switch {
 			case cf.op == token.EQL && bsm1, cf.op == token.LSS && bs, cf.op == token.LEQ && bsm1, cf.op == token.LEQ && bs, cf.op == token.NEQ && bs, cf.op == token.GEQ && bsm1:
 			default:
@@ -201,7 +215,7 @@ func ruleMapIterCond(c *Ctx, r *R) {
 						dec = true
 					}
 				})
-				if !dec {
+				if !dec && !(preReads[gd.cond] && preOK[gd.cond]) {
 					afterDec = false
 				}
 			}
@@ -650,20 +664,20 @@ func ruleMapOrder(c *Ctx, r *R) {
 		}
 		// everything received is pushed: the ok branch of the receive pushes the received item
 		okPush := false
-		instrs(fn, func(b *ssa.BasicBlock, i int, in ssa.Instruction) {
-			if call, ok := in.(*ssa.Call); ok {
+		for _, dd := range deepInstrs(fn, 2) { // (the push may sit in a method of a reorder-buffer type: s.done.add(item))
+			if call, ok := dd.in.(*ssa.Call); ok {
 				if cal := staticCallee(&call.Call); cal != nil && fname(cal) == "Push" && len(call.Call.Args) == 2 {
-					if ex, ok := call.Call.Args[1].(*ssa.Extract); ok {
+					if ex, ok := argOf(call.Call.Args[1], dd.calls).(*ssa.Extract); ok {
 						switch t := ex.Tuple.(type) {
 						case *ssa.UnOp:
-							okPush = t.Op == token.ARROW
+							okPush = okPush || t.Op == token.ARROW
 						case *ssa.Select:
 							okPush = true
 						}
 					}
 				}
 			}
-		})
+		}
 		r.ok(okPush, name+"|push-received", fn.Pos(), "every result received from the workers must be pushed onto the reorder heap")
 	}
 }
@@ -840,7 +854,7 @@ func ruleMapStreamError(c *Ctx, r *R) {
 	var waitAt deepInstr
 	for _, dd := range deepInstrs(fn, 2) {
 		if call, ok := dd.in.(*ssa.Call); ok {
-			if cal := call.Call.StaticCallee(); cal != nil && fname(cal) == "Wait" && cal.Pkg != nil && strings.HasSuffix(cal.Pkg.Pkg.Path(), "errgroup") {
+			if cal := staticCallee(&call.Call); cal != nil && fname(cal) == "Wait" && cal.Pkg != nil && strings.HasSuffix(cal.Pkg.Pkg.Path(), "errgroup") {
 				wait = call
 				waitAt = dd
 			}
@@ -1119,3 +1133,21 @@ var _ = late(func() {
 			}
 		}})
 })
+
+// inFlightReadBeforeDec: v is a load of the inFlight field that no decrement of the field precedes in its function.
+func inFlightReadBeforeDec(v ssa.Value) bool {
+	ld, ok := resolveVal(v).(*ssa.UnOp)
+	if !ok || ld.Op != token.MUL {
+		return false
+	}
+	if _, f, ok := storedField(ld.X); !ok || f != "inFlight" {
+		return false
+	}
+	dec := false
+	instrs(ld.Parent(), func(sb *ssa.BasicBlock, si int, sin ssa.Instruction) {
+		if isFieldIncDec(sin, "inFlight", -1) && ((sb == ld.Block() && si < idxIn(ld)) || (sb != ld.Block() && sb.Dominates(ld.Block()))) {
+			dec = true
+		}
+	})
+	return !dec
+}
